@@ -127,6 +127,20 @@ UNITS += [
          ],
          contract="\n    // (implicit obligation: the original snapshots are forgotten only after the rewritten ones were saved)\n"),
 ]
+
+UNITS += [
+    Unit(name="raw_packer_finalize", file=PKR, anchor="fn finalize(&mut self) -> RusticResult<PackerStats>", within="impl<BE: DecryptWriteBackend> RawPacker<BE> {", ret_name="r",
+         wrap_open="impl RawPackerW {", wrap_close="}",
+         functions=["blob::packer::RawPacker::finalize"],
+         rewrites=[Rw("RusticResult<PackerStats>", "RusticResult<PackerStatsR>", sig=True, why="stats -> stub")],
+         contract="""
+    requires old(self).file_writer is Some,
+    ensures
+        // a packer reports success only after the writer thread was waited for: a failed pack write cannot go unnoticed,
+        // whether or not a partially filled pack was still open
+        /*@success_only_after_the_writer_was_joined*/ r is Ok ==> WRITER_JOINED() && final(self).file_writer is None,
+"""),
+]
 KANI = []
 META = {"not_covered": [
     "the statement's quantifier (every prefix of every command's storage operations, any single failing operation): only the ordering of the straight-line parts listed under functions is decided",
